@@ -299,6 +299,44 @@ func intervalIntersects(a, b orb.Bound) bool {
 	return a.Min[0] <= b.Max[0] && b.Min[0] <= a.Max[0] && a.Min[1] <= b.Max[1] && b.Min[1] <= a.Max[1]
 }
 
+// c06untidy gives collections the members a program can legitimately hand over besides tidy ones: untyped nil members
+// (orb.AllGeometries starts with one; they have no vertices), at the front as well, and two members that are windows of
+// different lengths onto one backing array (sub and sub[:k]: different values starting at the same element).
+func c06untidy(r *h.Rand, g orb.Geometry, nils, views *int) orb.Geometry {
+	col, ok := g.(orb.Collection)
+	if !ok {
+		if r.P(1, 3) {
+			*nils++
+			return orb.Collection{nil, g}
+		}
+		return g
+	}
+	out := make(orb.Collection, 0, len(col)+3)
+	if r.P(1, 3) {
+		out = append(out, nil)
+		*nils++
+	}
+	for _, m := range col {
+		m = c06untidy(r, m, nils, views)
+		out = append(out, m)
+		if sub, ok := m.(orb.Collection); ok && len(sub) >= 2 && r.Bool() {
+			k := 1 + r.Intn(len(sub)-1)
+			if r.Bool() {
+				out = append(out, sub[:k])
+			} else { // the shorter one first
+				out[len(out)-1] = sub[:k]
+				out = append(out, orb.Point{1, 1}, sub)
+			}
+			*views++
+		}
+		if r.P(1, 6) {
+			out = append(out, nil)
+			*nils++
+		}
+	}
+	return out
+}
+
 func init() {
 	optsAll := &gen.GeomOpts{Float: gen.FloatAll, NilSlices: true, Empty: true, EmptyParts: true, RingBound: true, Huge: true}
 	optsFin := &gen.GeomOpts{Float: gen.FloatFinite, NilSlices: true, Empty: true, EmptyParts: true, RingBound: true, Huge: true}
@@ -322,6 +360,12 @@ func init() {
 					g := properBounds(o.Geometry(r, r.Intn(5)))
 					if r.P(1, 3) {
 						g = closeSomeRings(r, g)
+					}
+					if r.P(1, 4) {
+						var nils, views int
+						g = c06untidy(r, g, &nils, &views)
+						c.Count("collections_with_untyped_nil_members", int64(nils))
+						c.Count("collections_with_a_member_that_is_a_prefix_view_of_another_member", int64(views))
 					}
 					snap := refmodel.Copy(g)
 					d := func() map[string]interface{} {
